@@ -2,12 +2,14 @@
 # replay.sh <file>: re-executes a replay against the real library (built from /repo) and
 # prints the model comparison and the monitor verdicts.
 set -e
+f=$(readlink -f "$1"); set -- "$f"
 cd /verif/harness && cargo build --offline >/dev/null 2>&1
 if grep -q '^# crash-experiment' "$1"; then exec python3 /verif/tools/crash.py --replay "$1"; fi
 if grep -q '^# hung-scenario' "$1"; then exec /verif/harness/target/debug/drive --hung; fi
 grep -v '^#' "$1" > /verif/work/replay.$$.ops
 rc=0
-/verif/harness/target/debug/drive --replay /verif/work/replay.$$.ops --out /verif/work/replay.$$.trace 2>/verif/work/replay.$$.err || rc=$?
+http=""; if grep -q '^# transport=http' "$1"; then http="--http"; fi
+/verif/harness/target/debug/drive $http --replay /verif/work/replay.$$.ops --out /verif/work/replay.$$.trace 2>/verif/work/replay.$$.err || rc=$?
 if [ $rc -ne 0 ]; then grep -E 'HANG|PANIC' /verif/work/replay.$$.err || true; echo "the driver ended with exit code $rc (4 = a call never returned, 134 = abort after a panic)"; fi
 [ -s /verif/work/replay.$$.trace ] && /verif/lean/.lake/build/bin/model replay < /verif/work/replay.$$.trace
 rm -f /verif/work/replay.$$.ops /verif/work/replay.$$.trace /verif/work/replay.$$.err
